@@ -420,10 +420,27 @@ fn w_check_front(mdl: &MDL, w: &[u8], nelem: usize) {
     w_f32s(w, M_TAIL + 5 + 3 * 32 + 16, &mdl.model_data.vertical_fog_bounding_box.max);
 }
 
-/// float / byte typed elements (declaration A)
+/// vertex whose raw-copied attributes (position, normal, UVs, bone ids) are symbolic and whose coded attributes
+/// (byte-float weights / colour, tangent) are concrete and pairwise distinct, so that the float -> byte conversions
+/// fold to constants while a mix-up of attributes or vertices still shows
+fn w_mapping_vertex(k: usize) -> Vertex {
+    let f = k as f32 * 0.25;
+    Vertex { position: kani::any(), uv0: kani::any(), uv1: kani::any(), normal: kani::any(),
+        bitangent: [0.5 - f, -0.25 + f, 1.0, if k == 0 { 1.0 } else { -1.0 }],
+        color: [0.1 + f, 0.3 + f, 0.5 + f, 0.7],
+        bone_weight: [0.2 + f, 0.4, 0.6 - f, 0.05], bone_id: kani::any() }
+}
+
+/// float / byte typed elements (declaration A), every attribute value symbolic
 #[kani::proof]
 #[kani::unwind(140)]
-fn c07_write_to_buffer_elements_single() {
+fn c07_write_to_buffer_elements_single() { write_elements_single([w_any_vertex(), w_any_vertex()]); }
+/// same shape, coded attributes concrete (see w_mapping_vertex)
+#[kani::proof]
+#[kani::unwind(140)]
+fn c07_write_to_buffer_mapping_single() { write_elements_single([w_mapping_vertex(0), w_mapping_vertex(1)]); }
+
+fn write_elements_single(v: [Vertex; 2]) {
     let sh = WShape { s0: 40, s1: 16, nv: 2, start_index: 1 };
     let elements = vec![
         w_elem(0, 0, VertexType::Single3, VertexUsage::Position),
@@ -434,7 +451,6 @@ fn c07_write_to_buffer_elements_single() {
         w_elem(1, 8, VertexType::ByteFloat4, VertexUsage::Color),
         w_elem(1, 12, VertexType::ByteFloat4, VertexUsage::BiTangent),
     ];
-    let v = [w_any_vertex(), w_any_vertex()];
     let idx: [u16; 3] = kani::any();
     let mdl = w_model(&sh, elements, vec![v[0], v[1]], vec![idx[0], idx[1], idx[2]], 0x0100_0005);
     let w = mdl.write_to_buffer().unwrap();
